@@ -9,6 +9,8 @@ import XmppModel.Model.ValueForms
 import XmppModel.Model.Transport
 import XmppModel.Model.SendFlush
 import XmppModel.Lemmas.SendFlush
+import XmppModel.Model.SendKinds
+import XmppModel.Lemmas.SendKinds
 /-!
 # C05 — each transmit call puts exactly its own element on the wire, whole
 
@@ -1066,6 +1068,156 @@ theorem C05_gen_writes_under_lock :
       (rows.filter (fun r => r.2.1)).any (fun r => r.1 == "Encode") = true ∧
       (rows.filter (fun r => r.2.1)).any (fun r => r.1 == "Serve") = true := by
   refine ⟨_, rfl, by decide, by decide, by decide, by decide, by decide⟩
+
+/-! ### Round G: the call kinds of session.go over the send LTS (review A-3) -/
+
+open SendKinds in
+/-- **atomicity for every mix of call kinds**: one-shot calls (`send`, `Encode`, `EncodeElement`,
+`sendError`), token-writer handles with arbitrary user code between two tokens, and iterations
+of the serve loop (lock taken lazily by the first token written through the iteration's ONE
+`deferWriter`, handler reply and automatic reply under the same tenure, handler code in
+between; a silent iteration never touches the lock), any number of each, EVERY schedule of
+writing and non-writing steps: the wire is the concatenation of the complete blocks of the
+finished calls followed by the prefix written by the one call inside its tenure, and every
+finished call's block is on the wire, contiguous and whole -/
+theorem C05_kinds_atomic {α : Type} (p : Prog α) (sched : List Act) :
+    let s := run p (SendLts.init α) sched
+    s.wire = s.finished.flatMap p.job ++ SendLts.open_ p.job s ∧
+    (s.lock = none → s.wire = s.finished.flatMap p.job) ∧
+    ∀ i, s.pc i = .done → ∃ pre post, s.wire = pre ++ p.job i ++ post := by
+  intro s
+  have inv := inv_run p sched (SendLts.init α) (SendLts.inv_init p.job)
+  refine ⟨inv.wire_eq, ?_, ?_⟩
+  · intro hnone
+    have : SendLts.open_ p.job s = [] := by simp [SendLts.open_, hnone]
+    rw [inv.wire_eq, this, List.append_nil]
+  · intro i hd
+    have hm := (inv.fin_done i).mpr hd
+    obtain ⟨a, b, hab⟩ := List.append_of_mem hm
+    refine ⟨a.flatMap p.job, b.flatMap p.job ++ SendLts.open_ p.job (run p (SendLts.init α) sched), ?_⟩
+    rw [inv.wire_eq, hab]
+    simp [List.flatMap_append]
+
+open SendKinds in
+/-- **the replies written by the serve goroutine are contiguous too**: for a finished iteration
+of the serve loop, whatever else transmits at the same time and however the handler's code is
+interleaved, the handler's reply tokens are on the wire in one piece and the automatic reply
+(the `service-unavailable` error of an unanswered get/set IQ) follows them IMMEDIATELY — nothing
+of another call before, inside or between the two -/
+theorem C05_serve_replies_contiguous {α : Type} (p : Prog α) (sched : List Act) (i : Nat)
+    (hk : p.kind i = .serveIter) (hd : (run p (SendLts.init α) sched).pc i = .done) :
+    ∃ pre post, (run p (SendLts.init α) sched).wire = pre ++ p.reply i ++ p.auto i ++ post := by
+  obtain ⟨pre, post, h⟩ := (C05_kinds_atomic p sched).2.2 i hd
+  refine ⟨pre, post, ?_⟩
+  rw [h]
+  simp [Prog.job, hk, List.append_assoc]
+
+open SendKinds in
+/-- **what a serve iteration writes is a sequence of complete top-level elements, or the session
+ends** (rule of session.go since the serve-loop fixes: `deferWriter.abandoned`): for every list of
+tokens the handler got accepted, with or without a refused token, answered or not, and every
+well-formed automatic reply — either the iteration reports `errOutputBroken` and NOTHING is
+written after the handler's tokens, or its block (`reply`, or `reply ++ auto`) is balanced: the
+automatic reply is a top-level element of the stream and the next call (`C05_kinds_atomic`)
+finds the encoder at depth 0 -/
+theorem C05_serve_iteration_whole_or_ends (needsResp : Bool) (id : String) (reply : List Tok)
+    (refused : Bool) (auto : List Tok) (ha : balanced auto = true) :
+    ((serveIter needsResp id reply refused auto).2 = true ∧
+        (serveIter needsResp id reply refused auto).1 = reply ∧ abandoned reply refused = true) ∨
+    ((serveIter needsResp id reply refused auto).2 = false ∧
+        balanced (serveIter needsResp id reply refused auto).1 = true ∧
+        ((serveIter needsResp id reply refused auto).1 = reply ∨
+         (serveIter needsResp id reply refused auto).1 = reply ++ auto)) := by
+  unfold serveIter
+  by_cases hab : abandoned reply refused = true
+  · left; simp [hab]
+  · right
+    have hb : depthAfter 0 reply = some 0 := by
+      simp only [abandoned, Bool.or_eq_true, bne_iff_ne, ne_eq, not_or, Bool.not_eq_true] at hab
+      exact Classical.not_not.mp hab.2
+    have ha' : depthAfter 0 auto = some 0 := by simpa [balanced] using ha
+    simp only [hab, Bool.false_eq_true, if_false]
+    split
+    · refine ⟨rfl, ?_, Or.inr rfl⟩
+      simp [balanced, depthAfter_append, hb, ha']
+    · refine ⟨rfl, ?_, Or.inl rfl⟩
+      simp [balanced, hb]
+
+def openReply : List Tok := [.start ⟨"urn:a", "x"⟩ []]
+def autoErr : List Tok :=
+  [.start ⟨"", "iq"⟩ [⟨⟨"", "type"⟩, "error"⟩, ⟨⟨"", "id"⟩, "q1"⟩], .start ⟨"", "error"⟩ [], .stop ⟨"", "error"⟩, .stop ⟨"", "iq"⟩]
+
+open SendKinds in
+/-- **the rule is necessary**: without it, a handler that returns nil with `<x>` open gets the
+automatic reply of its unanswered IQ nested inside `<x>` (not a top-level element: the block is
+not balanced); with it the iteration ends the session after the handler's tokens.  A refused
+token has the same effect, and a complete answer suppresses the automatic reply. -/
+theorem C05_serve_auto_reply_nests_without_check :
+    serveIterNoCheck true "q1" openReply autoErr = openReply ++ autoErr ∧
+    balanced (serveIterNoCheck true "q1" openReply autoErr) = false ∧
+    serveIter true "q1" openReply false autoErr = (openReply, true) ∧
+    serveIter true "q1" [] true autoErr = ([], true) ∧
+    serveIter true "q1" [] false autoErr = (autoErr, false) ∧
+    serveIter true "q1" autoErr false autoErr = (autoErr, false) ∧
+    serveIter false "q1" [] false autoErr = ([], false) := by
+  decide
+
+/-- a session on which a handle writes `<a>…`, two one-shot calls transmit and the serve loop
+answers an IQ (handler reply `r1 r2`, then the automatic reply `e`), with handler and user code
+between the writes -/
+def kindsDemo : SendKinds.Prog String :=
+  { kind := fun i => if i = 0 then .handle else if i = 3 then .serveIter else if i = 4 then .serveIter else .oneShot,
+    reply := fun i => if i = 0 then ["a1", "a2"] else if i = 1 then ["x"] else if i = 2 then ["y"]
+      else if i = 3 then ["r1", "r2"] else [],
+    auto := fun i => if i = 3 then ["e"] else [],
+    waits := fun _ => none }
+
+open SendKinds in
+/-- non-vacuity: the schedule interleaves all kinds; iteration 4 writes nothing and never takes
+the lock (it stays `idle` although it is scheduled while the lock is free) -/
+example :
+    let s := run kindsDemo (SendLts.init String)
+      [.go 3, .idle 3, .go 0, .go 1, .go 3, .idle 3, .go 2, .go 3, .go 0, .idle 3, .go 3, .go 3, .go 4, .go 0, .go 0,
+       .idle 0, .go 0, .go 0, .go 4, .go 1, .go 1, .go 1, .go 2, .go 2, .go 2]
+    s.wire = ["r1", "r2", "e", "a1", "a2", "x", "y"] ∧ s.pc 4 = .idle ∧ s.lock = none := by
+  decide
+
+/-- a token-writer handle (call 0) whose owner, after the first token, calls `Send` on the same
+session (call 1) and goes on only when that call has returned -/
+def selfSend : SendKinds.Prog String :=
+  { kind := fun i => if i = 0 then .handle else .oneShot,
+    reply := fun i => if i = 0 then ["a", "b"] else if i = 1 then ["x"] else [],
+    auto := fun _ => [],
+    waits := fun i => if i = 0 then some (1, 1) else none }
+
+open SendKinds in
+/-- **negation witness / assumption made explicit** (review A-3a): user code that holds a token
+writer and makes a transmit call on the SAME session deadlocks — from the state after the
+handle's first token NO action of ANY call changes anything, under every schedule: the handle
+never finishes, the inner `Send` never gets the lock, and every other call on the session is
+locked out for good.  The property speaks about successful calls, and no call succeeds; the
+theorems above assume `waits = none` for handles only in the sense that their conclusions are
+about calls that DO finish. -/
+theorem C05_holder_send_self_deadlocks (sched : List Act) :
+    let s0 := run selfSend (SendLts.init String) [.go 0, .go 0]
+    let s := run selfSend s0 sched
+    s.wire = ["a"] ∧ s.lock = some 0 ∧ s.pc 0 = .holding 1 ∧ s.pc 1 = .idle ∧ s.finished = [] := by
+  intro s0 s
+  have hstuck : ∀ a, step selfSend s0 a = none ∨ step selfSend s0 a = some s0 := by
+    intro a
+    cases a with
+    | idle i => right; rfl
+    | go i =>
+      left
+      by_cases h0 : i = 0
+      · subst h0; decide
+      · have hpc : s0.pc i = .idle := by
+          simp [s0, run, step, selfSend, blockedOn, SendLts.step, SendLts.init, SendLts.setPc, Prog.job, h0]
+        have hlock : s0.lock = some 0 := by decide
+        simp [step, selfSend, blockedOn, h0, SendLts.step, hpc, hlock, Prog.job]
+  have : s = s0 := stuck_run selfSend s0 hstuck sched
+  rw [this]
+  decide
 
 /-! ### a call that returned nil HAS put its element on the output stream (round E, seeded C05-19) -/
 
